@@ -6,6 +6,21 @@ ALL = ["C%02d" % i for i in range(1, 21)]
 
 # id -> dict(level_text, level_note, technique, design_ref)
 CLAIMED = {
+ "C08": dict(
+   text="In-process Watchexec whose action handler runs a generated program over real helper processes: 0-4 jobs (plain / grouped / session; command exits on the stop signal, ignores it, or forks a process-group member that ignores / exits) brought to states never-started, running, finished, running with an armed grace timer (graceful stop or try-restart), deleted; handle clones held outside; queued run_async sleeps; abort or graceful quit (grace 0-900 ms), optionally requested in the action that created the jobs; plus scenarios with 2-4 jobs that all need their full grace period. Oracle: main's JoinHandle completes within the bound (abort 1.5 s; graceful max over jobs of pending grace + quit grace + queued sleeps, + 0.8 s), and 300 ms later every pid the helpers logged (children always; group members of grouped/session commands after a graceful quit) is gone or a zombie. CLI leg: the real binary under SIGINT / SIGTERM exits within stop-timeout + slack and leaves nothing behind.",
+   note="Real time and real processes: failures must reproduce 3 times; bounds carry fixed slack. One open known finding: a group member ignoring the stop signal survives a graceful stop of a grouped command whose leader exits.",
+   technique="proptest generated handler programs over real processes with time-bound and /proc survivor oracles",
+   ref="DESIGN.md §3 C08"),
+ "C12": dict(
+   text="All 64 combinations of the six ignore-source flags x 7 explicit options (none, --ignore, --ignore-file, --filter, --filter-file, --exts, --fs-events) x generated projects (VCS dir, .gitignore, .ignore, nested .gitignore, .git/info/exclude, global git ignore and global watchexec ignore under a pinned HOME/XDG, paths hit only by built-in defaults), in-process through hook H2 (real clap parsing and normalisation, real WatchexecFilterer). One probe per source: rejected exactly when the flag set does not remove that source (table transcribed from the flag docs); probes for the explicit option: verdict identical under all flag sets and equal to the documented effect.",
+   note="Enumeration is complete over flags x options (exhaustive: true) for the generated project shapes; the e2e leg through --only-emit-events is not built. For positive filters only the invariance of the explicit probes is asserted.",
+   technique="exhaustive configuration matrix with a documentation-derived table oracle and a metamorphic (flag-invariance) relation",
+   ref="DESIGN.md §3 C12"),
+ "C18": dict(
+   text="Real processes. The child is a helper that dumps its argv (hex), pid/pgid/sid, cwd and environment; it is also used as the *shell*, which makes the exact argv a shell would receive observable. Generated argument vectors (0-6 strings with spaces, tabs, newlines, quotes, $, *, backslashes, empty strings, non-ASCII), shell descriptions (0-3 options, program option none / -c / /C / arbitrary, command, extra args), plain / grouped / session / both, reset_sigmask, spawned via Command::to_spawnable or through a Job whose spawn hook sets env and cwd. Oracles: argv byte-for-byte in the documented order, pgid/sid relations, hook env and cwd visible. Second leg: a job with an env-setting hook driven through restart / try_restart / restart_with_signal / try_restart_with_signal with commands that exit on or ignore the signal: every spawned process sees the hook's environment. CLI leg: --shell joins words with single spaces behind -c; -n passes words verbatim.",
+   note="NUL bytes excluded; Linux only.",
+   technique="proptest generated argument vectors / shell descriptions with an observational round-trip oracle through real child processes",
+   ref="DESIGN.md §3 C18"),
  "C01": dict(
    text="Conservation ledger over a full in-process Watchexec in real time: 1-4 producer tasks send uniquely numbered synthetic events (priority low..urgent, table-driven filter verdict pass/reject/error, tag shapes incl. path, signal, keyboard EOF and empty), handler sync/async taking 0-80 ms, queue size 1/2/8/4096, gaps placed relative to the throttle. Every event owed (send returned Ok) that passes, is urgent or is empty is delivered exactly once; rejected/errored ones never; nothing twice; urgent and empty events never reach the filter and others at most once; no empty batch. All assertions are about what was delivered, not when.",
    note="The quit is requested only once everything owed has arrived (or 1.5 s + 3 x throttle have passed); a failure must reproduce 3 times to count. fs-event -> queue conversion is exercised with the mock watcher in C15's watcher-fault leg; the real inotify/poll leg is not built.",
